@@ -358,9 +358,9 @@ func (e *Engine) structSort(t types.Type, st *types.Struct) string {
 		fields = append(fields, fmt.Sprintf("(%s %s)", e.fieldSel(name, st, i), fs))
 	}
 	if len(fields) == 0 {
-		e.emit(fmt.Sprintf("(declare-datatypes ((%s 0)) (((mk_%s))))", name, name))
+		e.emitDecl(fmt.Sprintf("(declare-datatypes ((%s 0)) (((mk_%s))))", name, name))
 	} else {
-		e.emit(fmt.Sprintf("(declare-datatypes ((%s 0)) (((mk_%s %s))))", name, name, strings.Join(fields, " ")))
+		e.emitDecl(fmt.Sprintf("(declare-datatypes ((%s 0)) (((mk_%s %s))))", name, name, strings.Join(fields, " ")))
 	}
 	e.structInfo[name] = st
 	return name
